@@ -67,7 +67,7 @@ theorem mid_frame_switch (cfg : Cfg) {t : TCfg} (ht : t.Ok) {i : Info} {stride b
     (hz : ZInv cfg r.dec) (hF : Line0Fresh r) (hcaf : r.sub.caf = false) (hi : r.dec.info = some i)
     (hst : stride = outLineSize t i r.flags r.sub.width) (hbits : bits = outBits t i r.flags)
     (hW : nextFrameBuf cfg t r buf = (rE, .frame oi B, B)) :
-    ∃ rEk, nextFrameBuf cfg t rk bufk = (rEk, .frame oi B, B) ∧ Sim False rE rEk := by
+    ∃ rEk, nextFrameBuf cfg t rk bufk = (rEk, .frame oi B, B) ∧ PSim False rE rEk := by
   rw [nextFrameBuf_open cfg buf hI hcaf] at hW
   obtain ⟨rEk, k1, k2, k3, _, _⟩ := path_agreement cfg ht hc hI hF hi hst hbits hW
   obtain ⟨hcafk, _⟩ := rowCalls_caf cfg ht hc hI hi hst hz hcaf
@@ -92,7 +92,7 @@ theorem skip_later_calls (cfg : Cfg) {t : TCfg} (ht : t.Ok) (hs : t.SnapIndep) {
   have hL1 : Live t (nextFrameInfo cfg t r).1 := ⟨h1.2.1.dead.trans hL.dead, h1.2.1.isReader.trans hL.isReader, h1.1⟩
   have hL2 : Live t (nextFrameInfo cfg t rE).1 :=
     ⟨h2.2.1.dead.trans (hSE.2.1.dead.trans hL.dead), h2.2.1.isReader.trans (hSE.2.1.isReader.trans hL.isReader), h2.1⟩
-  exact ⟨k1.trans hfc, (run_sim cfg ht (b := True) (fun _ => hs) ops _ _ hops (k2 fc hfc) hL2 hL1).2⟩
+  exact ⟨k1.trans hfc, (run_psim cfg ht (b := True) (fun _ => hs) ops _ _ hops (k2 fc hfc) hL2 hL1).2⟩
 
 /-- **the interlace information of a delivered row is the row iterator's**: it is the reader's current
     row; in a non-interlaced frame that is the row counter (so `next_row`, which drops it, loses nothing) -/
